@@ -69,7 +69,7 @@ except ImportError:  # pragma: no cover
 log = logging.getLogger('c27-replay')
 log.addHandler(logging.NullHandler())
 log.propagate = False
-ns = dict(asyncio=asyncio, functools=functools, logging=logging, traceback=traceback, pymysql=pymysql, sleep_before_try=sleep_before_try, log=log, Any=Any, AsyncIterator=AsyncIterator, Awaitable=Awaitable, Callable=Callable, Dict=Dict, Optional=Optional, TypeVar=TypeVar, Concatenate=Concatenate, ParamSpec=ParamSpec, DB_CONNECTION_QUEUE_SIZE=Counter(), SQL_TRANSACTIONS=Counter(), BackgroundTaskManager=object)
+ns = dict(PrometheusSQLTimer=None, asyncio=asyncio, functools=functools, logging=logging, traceback=traceback, pymysql=pymysql, sleep_before_try=sleep_before_try, log=log, Any=Any, AsyncIterator=AsyncIterator, Awaitable=Awaitable, Callable=Callable, Dict=Dict, Optional=Optional, TypeVar=TypeVar, Concatenate=Concatenate, ParamSpec=ParamSpec, DB_CONNECTION_QUEUE_SIZE=Counter(), SQL_TRANSACTIONS=Counter(), BackgroundTaskManager=object)
 exec(compile(ast.Module(body=body, type_ignores=[]), 'database-extract', 'exec'), ns)
 classify, retry, transaction = ns['exception_log_level_if_retryable'], ns['retry_transient_mysql_errors'], ns['transaction']
 
@@ -217,8 +217,58 @@ def check_aexit():
     return None
 
 
+class FakeCursor:
+    def __init__(self, calls):
+        self.calls = calls
+        self.lastrowid = 1
+
+    async def __aenter__(self):
+        return self
+
+    async def __aexit__(self, *a):
+        return None
+
+    async def execute(self, sql, args=None):
+        self.calls.append(sql)
+        if len(self.calls) == 1:
+            raise OperationalError(1213, 'Deadlock found')
+        return 1
+
+    executemany = execute
+
+    async def fetchone(self):
+        return {'rc': 0}
+
+
+class FakeConn2:
+    def __init__(self, calls):
+        self.calls = calls
+
+    def cursor(self):
+        return FakeCursor(self.calls)
+
+
+def check_statement_level():
+    """a statement of an OPEN transaction that hits a deadlock must fail the attempt (the server has rolled the transaction
+    back); it must not be re-sent on its own"""
+    Transaction = ns['Transaction']
+    for meth, args in (('just_execute', ('S',)), ('execute_and_fetchone', ('S',)), ('execute_insertone', ('S',)), ('execute_update', ('S',)), ('execute_many', ('S', [(1,), (2,)]))):
+        calls = []
+        tx = Transaction(FakeTM([]))
+        tx.conn = FakeConn2(calls)
+        del SLEEPS[:]
+        try:
+            asyncio.run(getattr(tx, meth)(*args))
+            raised = False
+        except OperationalError:
+            raised = True
+        if not raised or len(calls) != 1:
+            return {'confirmed': True, 'what': 'a single statement is retried inside the open transaction after a deadlock (its effects land outside the rolled-back attempt)', 'method': 'Transaction.' + meth, 'statements_sent': len(calls), 'raised': raised}
+    return None
+
+
 res = None
-for f in (check_classifier, check_retry_loop, check_transaction, check_aexit):
+for f in (check_classifier, check_retry_loop, check_transaction, check_aexit, check_statement_level):
     try:
         res = f()
     except Exception as e:  # pylint: disable=broad-except
